@@ -28,7 +28,7 @@ import (
 func TestMain(m *testing.M) {
 	h.Observe("build", buildTag)
 	h.Observe("GODEBUG", os.Getenv("GODEBUG"))
-	h.Main(m, ref.SelfTestSM3, ref.SelfTestSM2, selfTestKAP, selfTestFixtures)
+	h.Main(m, ref.SelfTestSM3, ref.SelfTestSM2, selfTestKAP, selfTestFixtures, selfTestGeneric)
 }
 
 var (
